@@ -130,6 +130,21 @@ func BuildLegacy(r *rand.Rand, root string, tag string) Legacy {
 			hex = hex[:64]
 		}
 		entries = append(entries, tagEntry(MTIndex, fbd, len(fb), alg+"-"+hex))
+		if r.Intn(4) == 0 {
+			// an ordinary tag on the very same index: it is one of "every other tag" and stays
+			ot := fmt.Sprintf("artifacts-%d", si)
+			L.OtherTags[ot] = fbd
+			entries = append(entries, tagEntry(MTIndex, fbd, len(fb), ot))
+			L.Kinds[len(L.Kinds)-1] += "+also-tagged"
+		}
+		if nref >= 2 && kind == "accurate" && r.Intn(3) == 0 {
+			// a converted response for the same subject already sits in the (unmarked) index.json, written when only
+			// the first referrer existed: the conversion has to merge, the result is still all of them
+			old, _ := json.Marshal(map[string]any{"schemaVersion": 2, "mediaType": MTIndex, "manifests": descs[:1]})
+			od := wr(old, "sha256")
+			entries = append(entries, map[string]any{"mediaType": MTIndex, "digest": od, "size": len(old), "annotations": map[string]string{"org.olareg.referrer.subject": sd}})
+			L.Kinds[len(L.Kinds)-1] += "+coexisting-response"
+		}
 	}
 	u := img("unrelated", "", "", "sha256")
 	L.All = append(L.All, u)
